@@ -523,6 +523,19 @@ def i1(ctx):
                    or (e.kind == 'MCALL' and e.d['name'] in ('items', 'get', 'keys', 'values'))]
         if content and (not lt or lt[0].seq > content[0].seq):
             ok = False
+    okp, bad_pair = True, None
+    for g in ast.walk(f.node):
+        if isinstance(g, (ast.GeneratorExp, ast.ListComp)) and len(g.generators) == 1 and isinstance(g.elt, ast.Tuple) \
+                and isinstance(g.generators[0].iter, ast.Name) and isinstance(g.generators[0].target, ast.Name):
+            it, var = g.generators[0].iter.id, g.generators[0].target.id
+            for sub in ast.walk(g.elt):
+                if isinstance(sub, ast.Subscript) and isinstance(sub.value, ast.Name) and isinstance(sub.slice, ast.Name) \
+                        and sub.slice.id == var and sub.value.id != it:
+                    okp, bad_pair = False, sub
+    obs.append(Ob('I1', 'Index.__eq__/pairs-from-the-iterated-mapping', okp,
+                  'an item stream of Index.__eq__ iterates the keys of one mapping but reads the values of the other '
+                  '(%s): the values of `other` are never compared' % (ast.unparse(bad_pair) if bad_pair is not None else ''),
+                  f.loc(bad_pair) if bad_pair is not None else f.loc()))
     obs.append(Ob('I1', 'Index.__eq__/length-first', ok and n > 0,
                   'Index.__eq__ looks at items before it has compared the lengths: pairing with zip() stops at the '
                   'shorter side, so an index equals any ordered mapping it is a prefix of', f.loc()))
